@@ -168,8 +168,7 @@ def loadStv (hdr : List HLine) (votes : List VLine) : Except Err (Doc Rat × Lis
 
 def wfStv (d : Doc Weight) : Bool :=
   let nicks := candidateNicks (d.cands.map (·.2.2))
-  decide nicks.Nodup
-  && nicks.all (· ≠ "")                       -- (lexing) an empty nickname cannot be read back from `candidate= name`
+  nicks.all (· ≠ "")                       -- (lexing) an empty nickname cannot be read back from `candidate= name`
   && d.ballots.all (fun b => b.1.all (· < d.cands.length)
         && (b.2.spellable || b.2.val = 1)
         && !(b.2.val = 1 && b.1.isEmpty)                                   -- an empty line is skipped by the reader
